@@ -1,0 +1,60 @@
+//go:build verif
+
+package table
+
+import (
+	"time"
+
+	enc "github.com/named-data/ndnd/std/encoding"
+)
+
+// Verification hooks for property C18 (accessors and dumps only; no behaviour change).
+
+// Vf18Entry is a copy of one RibEntry.
+type Vf18Entry struct {
+	Name     enc.Name
+	Hash     uint64
+	NextHop1 uint64
+	NextHop2 uint64
+	Lowest1  uint64
+	Lowest2  uint64
+	Dirty    bool
+	Costs    map[uint64]uint64
+}
+
+// Vf18Dump copies every RIB entry (including unreachable ones, if any are stored).
+func (r *Rib) Vf18Dump() []Vf18Entry {
+	out := make([]Vf18Entry, 0, len(r.entries))
+	for h, e := range r.entries {
+		costs := make(map[uint64]uint64, len(e.costs))
+		for k, v := range e.costs {
+			costs[k] = v
+		}
+		out = append(out, Vf18Entry{
+			Name: e.name, Hash: h,
+			NextHop1: e.nextHop1, NextHop2: e.nextHop2,
+			Lowest1: e.lowest1, Lowest2: e.lowest2,
+			Dirty: e.dirty, Costs: costs,
+		})
+	}
+	return out
+}
+
+// Vf18NextHop1 returns the best next hop (name hash) and cost of an entry returned by Entries().
+func (e *RibEntry) Vf18Best() (uint64, uint64) {
+	return e.nextHop1, e.lowest1
+}
+
+// Vf18Names lists the neighbours currently in the table.
+func (nt *NeighborTable) Vf18Names() []enc.Name {
+	out := make([]enc.Name, 0, len(nt.neighbors))
+	for _, ns := range nt.neighbors {
+		out = append(out, ns.Name)
+	}
+	return out
+}
+
+// Vf18SetLastSeen overrides the time the neighbour was last heard from (the harness owns the clock).
+func (ns *NeighborState) Vf18SetLastSeen(t time.Time) {
+	ns.lastSeen = t
+}
